@@ -11,18 +11,18 @@ string query_uname() { return uname; }
 void logon() {
   enable_commands();
   add_action("cmd_any", "", 1);
-  if (MASTER->query_policy("logon_error")) error("logon fails\n");
+  if (MASTER->query_policy("logon_error")) { MASTER->set_policy("logon_error", 0); vfail("logon", uname); }
 }
 
 void net_dead() {
   vlog("\"e\":\"NetDead\",\"u\":" + jq(uname));
-  if (MASTER->query_policy("netdead_error")) error("net_dead fails\n");
+  if (MASTER->query_policy("netdead_error")) { MASTER->set_policy("netdead_error", 0); vfail("net_dead", uname); }
 }
 
 // every complete input line arrives here first
 mixed process_input(string s) {
   vlog("\"e\":\"Cmd\",\"u\":" + jq(uname) + ",\"hex\":" + jq(to_hex(s)));
-  if (MASTER->query_policy("process_input_error") == uname) error("process_input fails\n");
+  if (MASTER->query_policy("process_input_error") == uname) { MASTER->set_policy("process_input_error", 0); vfail("process_input", uname); }
   return 0;   // let the driver go on with the command
 }
 
@@ -37,6 +37,6 @@ int cmd_any(string arg) {
 void write_prompt() { }
 void catch_tell(string s) { }
 
-void set_terminal_type(string t) { vlog("\"e\":\"TType\",\"u\":" + jq(uname) + ",\"hex\":" + jq(to_hex(t))); if (MASTER->query_policy("ttype_error")) error("ttype\n"); }
-void set_window_size(int w, int h) { vlog("\"e\":\"Naws\",\"u\":" + jq(uname) + ",\"w\":" + w + ",\"h\":" + h); if (MASTER->query_policy("naws_error")) error("naws\n"); }
+void set_terminal_type(string t) { vlog("\"e\":\"TType\",\"u\":" + jq(uname) + ",\"hex\":" + jq(to_hex(t))); if (MASTER->query_policy("ttype_error")) { MASTER->set_policy("ttype_error", 0); vfail("telnet", uname); } }
+void set_window_size(int w, int h) { vlog("\"e\":\"Naws\",\"u\":" + jq(uname) + ",\"w\":" + w + ",\"h\":" + h); if (MASTER->query_policy("naws_error")) vfail("telnet", uname); }
 void telnet_suboption(string s) { vlog("\"e\":\"Subopt\",\"u\":" + jq(uname) + ",\"hex\":" + jq(to_hex(s))); }
